@@ -344,7 +344,7 @@ package diam
 //@ spec single(r io.Reader) bool = !implements(r, MultistreamReader)
 //@ spec src(r io.Reader, s uint) io.Reader = implements(r, MultistreamReader) ? substream(r, s) : r
 //@ func (*Message).readHeader(m, r, buf) (cmd, stream, err)
-//@   property C03 C05 C19
+//@   property C03 C05 C06 C19
 //@   requires m != nil && r != nil && buf != nil && cap(bufslice(buf)) >= 20
 //@   requires m.dictionary != nil ==> pwf(m.dictionary)
 //@   requires stream_wf: single(r) ==> 0 <= pos(r) && pos(r) <= len(stream(r))
@@ -364,6 +364,7 @@ package diam
 //@   ensures [C05] within_stream: single(r) ==> (pos(r) <= len(stream(r)))
 //@   ensures [C05] header_needs_20: single(r) ==> (err == nil ==> old(pos(r)) + 20 <= len(stream(r)))
 //@   ensures [C05] whole_header_taken: single(r) ==> (old(pos(r)) + 20 <= len(stream(r)) ==> pos(r) == old(pos(r)) + 20)
+//@   ensures [C06] the_header_is_a_new_object: err == nil ==> m.Header != nil && fresh(m.Header)
 //@   ensures [C05] end_of_file_only_at_the_end: single(r) ==> (old(pos(r)) < len(stream(r)) ==> err != io.EOF)
 //@ end
 //@
@@ -409,6 +410,8 @@ package diam
 //@   ensures [C05] short_length_rejected: single(reader) ==> (old(pos(reader)) + 20 <= len(stream(reader)) && be24(stream(reader), old(pos(reader)) + 1) < 20 ==> err != nil && pos(reader) == old(pos(reader)) + 20)
 //@   ensures [C05] eof_inside_body: single(reader) ==> (old(pos(reader)) + 20 <= len(stream(reader)) && be24(stream(reader), old(pos(reader)) + 1) >= 20 && old(pos(reader)) + int(be24(stream(reader), old(pos(reader)) + 1)) > len(stream(reader)) ==> err != nil && err != io.EOF)
 //@   ensures [C05] never_beyond: single(reader) ==> (old(pos(reader)) + 20 <= len(stream(reader)) && be24(stream(reader), old(pos(reader)) + 1) >= 20 ==> pos(reader) <= old(pos(reader)) + int(be24(stream(reader), old(pos(reader)) + 1)))
+//@   # C06: the header of the message returned is an object of its own (nothing the library keeps - the pooled buffer - holds it)
+//@   ensures [C06] the_header_is_a_new_object: err == nil ==> m != nil && fresh(m) && m.Header != nil && fresh(m.Header)
 //@   # C03: what the reader returns satisfies the precondition of every inspection function (String, PrettyDump, search)
 //@   ensures [C03] inspectable: err == nil ==> m != nil && m.Header != nil && (m.dictionary != nil ==> pwf(m.dictionary)) && dtree(m.AVP)
 //@ end
